@@ -246,10 +246,28 @@ func (t attrSelector) Match(n *html.Node) bool {
 	}
 }
 
+// asciiLower maps A-Z to a-z and nothing else: the `i` flag of attribute
+// selectors compares ASCII case-insensitively, not under Unicode case folding
+func asciiLower(s string) string {
+	var b []byte
+	for i := 0; i < len(s); i++ {
+		if c := s[i]; 'A' <= c && c <= 'Z' {
+			if b == nil {
+				b = []byte(s)
+			}
+			b[i] = c + 'a' - 'A'
+		}
+	}
+	if b == nil {
+		return s
+	}
+	return string(b)
+}
+
 // check for equality between `s1` and `s2`, ignoring case if `ignoreCase` is true
 func matchInsensitiveValue(s1 string, s2 string, ignoreCase bool) bool {
 	if ignoreCase {
-		return strings.EqualFold(s1, s2)
+		return asciiLower(s1) == asciiLower(s2)
 	}
 	return s1 == s2
 }
@@ -359,7 +377,7 @@ func attributePrefixMatch(key, val string, n *html.Node, ignoreCase bool) bool {
 				return false
 			}
 			if ignoreCase {
-				return strings.HasPrefix(strings.ToLower(s), strings.ToLower(val))
+				return strings.HasPrefix(asciiLower(s), asciiLower(val))
 			}
 			return strings.HasPrefix(s, val)
 		})
@@ -377,7 +395,7 @@ func attributeSuffixMatch(key, val string, n *html.Node, ignoreCase bool) bool {
 				return false
 			}
 			if ignoreCase {
-				return strings.HasSuffix(strings.ToLower(s), strings.ToLower(val))
+				return strings.HasSuffix(asciiLower(s), asciiLower(val))
 			}
 			return strings.HasSuffix(s, val)
 		})
@@ -395,7 +413,7 @@ func attributeSubstringMatch(key, val string, n *html.Node, ignoreCase bool) boo
 				return false
 			}
 			if ignoreCase {
-				return strings.Contains(strings.ToLower(s), strings.ToLower(val))
+				return strings.Contains(asciiLower(s), asciiLower(val))
 			}
 			return strings.Contains(s, val)
 		})
